@@ -157,6 +157,15 @@ def sc_learner(cfg):
         X2, y2, w2 = _data(C, n, "u")
         est.fit(X2, y2)
         _cells(C, est.transform(Xq), ref(method, trained(a, X2, y2, None), Xq), "transform-follows-a-refit")
+        if cfg["method"] != 4:
+            # history: the wrapped model is replaced through set_params (alone: a grid over <step>__model does that),
+            # then fit and transform: the outputs are the NEW model's
+            a2 = C.int("a2")
+            other = FitXYW(a2)
+            est.set_params(model=other)
+            est.fit(X, y)
+            C.true(other.n_fit_ == 1 and model.n_fit_ == 2, "set_params(model=new):fit-trains-the-new-model-only")
+            _cells(C, est.transform(Xq), ref(method, trained(a2, X, y, None), Xq), "set_params(model=new):transform-calls-the-new-model")
 
     return scenario
 
@@ -181,15 +190,16 @@ def sc_stacking(cfg):
         X, y, w = _data(C, n, "t")
         mod = loader.load("sklapi.sklearn_base_transform_stacking")
         stack_np = harness.patched(mod, numpy=sx.TypedNumpy()) if C.symbolic else harness.patched(mod)
-        r = est.fit(X, y)
+        wgt = w if cfg.get("weighted") else None
+        r = est.fit(X, y, **(dict(sample_weight=w) if cfg.get("weighted") else {}))
         C.true(r is est, "fit-returns-self")
         for m in models:
-            C.true(m.n_fit_ == 1 and SEEN[id(m)][0] is X and SEEN[id(m)][1] is y, "every-member-trained-exactly-once-as-a-direct-fit")
+            C.true(m.n_fit_ == 1 and SEEN[id(m)][0] is X and SEEN[id(m)][1] is y and SEEN[id(m)][2] is wgt, "every-member-trained-exactly-once-as-a-direct-fit(same-fit-parameters)")
         Xq, _, _ = _data(C, n, "q")
         eff = meth if cfg["wrap"] else "transform"
         rows = [[] for _ in range(n)]
         for k, a in enumerate(As):
-            r_ = ref(eff, trained(a, X, y, None), Xq)
+            r_ = ref(eff, trained(a, X, y, wgt), Xq)
             if k == 0 and cfg.get("int_first"):
                 r_ = [[sx.strunc(v) if C.symbolic else int(v) for v in row] for row in r_]
             for i in range(n):
@@ -312,6 +322,8 @@ def configs(tier):
                     out.append(dict(kind="stacking", N=N, rows=rows, wrap=wrap, method=m))
     for N in (2, 3):
         out.append(dict(kind="stacking", N=N, rows=2, wrap=True, method=0, int_first=True))
+    for wrap in (False, True):
+        out.append(dict(kind="stacking", N=2, rows=2, wrap=wrap, method=0, weighted=True))
     for trainable in (False, True):
         out.append(dict(kind="transfer_inplace", trainable=trainable))
     for sig in SIGS:
